@@ -38,6 +38,23 @@ type replica struct {
 	restarts  []uint64        // log index after which it was restarted
 	snapshots []uint64        // log index at which a snapshot was installed
 	batches   []int
+	// entries that were applied in one batch with a LATER chunk entry (the
+	// chunking layer stores a batch's chunks before the batch is applied)
+	chunkLater map[uint64]bool
+}
+
+// rewindTo finds the position in cmds right after log index `got` when every
+// entry in (got, cmds[pos-1].Index] is a chunk of a value whose last chunk has
+// not been applied yet.
+func rewindTo(cmds []*hraft.Log, pos int, got uint64) (int, bool) {
+	np := pos
+	for np > 0 && cmds[np-1].Index > got {
+		if c, last := raft.VerifChunk(cmds[np-1]); !c || last {
+			return 0, false
+		}
+		np--
+	}
+	return np, true
 }
 
 func runC09(rc *RunCtx) {
@@ -54,9 +71,19 @@ func runC09(rc *RunCtx) {
 	// leader verdicts per command entry
 	leader := map[uint64]bool{}
 	txStart := map[uint64]uint64{}
+	listsRoot := map[uint64]bool{} // transactions that listed the root prefix ""
 	var cmds []*hraft.Log
+	chunkEntries := 0
 	pi := 0
 	for _, l := range rr.Logs {
+		if isChunk, last := raft.VerifChunk(l); isChunk {
+			s.Probe("chunk_entries")
+			chunkEntries++
+			if !last {
+				cmds = append(cmds, l) // a proposal is answered with its last chunk
+				continue
+			}
+		}
 		if l.Type == hraft.LogCommand {
 			kind, _, _, start := raft.VerifLogKind(l)
 			p := rr.Proposals[pi]
@@ -68,6 +95,13 @@ func runC09(rc *RunCtx) {
 			leader[l.Index] = p.err != nil
 			if kind == "tx" {
 				txStart[l.Index] = start
+				if p.txn != nil {
+					for _, o := range p.txn.ops {
+						if (o.kind == 'l' || o.kind == 'p') && o.key == "" {
+							listsRoot[l.Index] = true
+						}
+					}
+				}
 			}
 		}
 		cmds = append(cmds, l)
@@ -116,9 +150,20 @@ func runC09(rc *RunCtx) {
 				n = len(cmds) - pos
 			}
 			batch := cmds[pos : pos+n]
-			resps := r.fsm.ApplyBatch(batch)
+			resps := raft.VerifApplyBatch(r.fsm, batch)
 			r.batches = append(r.batches, n)
 			for i, l := range batch {
+				for _, m := range batch[i+1:] {
+					if c, _ := raft.VerifChunk(m); c {
+						if r.chunkLater == nil {
+							r.chunkLater = map[uint64]bool{}
+						}
+						r.chunkLater[l.Index] = true
+					}
+				}
+				if isChunk, last := raft.VerifChunk(l); isChunk && !last {
+					continue
+				}
 				if l.Type == hraft.LogCommand {
 					r.verdicts[l.Index] = raft.VerifIsTxError(resps[i])
 				}
@@ -135,8 +180,17 @@ func runC09(rc *RunCtx) {
 					}
 					r.fsm = f
 					if got := raft.VerifFSMIndex(f); got != last {
-						s.Violate("C09", "restart-lost-applied-index", nil, "replica %d reopened at index %d after applying up to %d", ri, got, last)
-						return
+						// the persisted index may lag only by chunks of a value that is
+						// not complete yet (they are stored, the state machine proper
+						// has not seen the entry); hashicorp/raft then replays from
+						// the persisted index, and so does this driver
+						if np, ok := rewindTo(cmds, pos, got); ok {
+							pos = np
+							s.Probe("restart_inside_chunked_value")
+						} else {
+							s.Violate("C09", "restart-lost-applied-index", nil, "replica %d reopened at index %d after applying up to %d", ri, got, last)
+							return
+						}
 					}
 					r.restarts = append(r.restarts, last)
 					s.Faults["replica-restart"]++
@@ -152,7 +206,7 @@ func runC09(rc *RunCtx) {
 						panic(err)
 					}
 					for _, l := range cmds[:pos] {
-						donor.ApplyBatch([]*hraft.Log{l})
+						raft.VerifApplyBatch(donor, []*hraft.Log{l})
 					}
 					if dk, _ := raft.VerifDump(donor); len(dk) == 0 {
 						// an empty data bucket streams zero bytes and cannot be
@@ -169,8 +223,13 @@ func runC09(rc *RunCtx) {
 						panic(fmt.Sprintf("snapshot install: %v", err))
 					}
 					if got := raft.VerifFSMIndex(r.fsm); got != last {
-						s.Violate("C09", "snapshot-install-wrong-index", nil, "replica %d at index %d after installing a snapshot taken at %d", ri, got, last)
-						return
+						if np, ok := rewindTo(cmds, pos, got); ok {
+							pos = np
+							s.Probe("snapshot_inside_chunked_value")
+						} else {
+							s.Violate("C09", "snapshot-install-wrong-index", nil, "replica %d at index %d after installing a snapshot taken at %d", ri, got, last)
+							return
+						}
 					}
 					r.snapshots = append(r.snapshots, last)
 					s.Faults["snapshot-install"]++
@@ -202,6 +261,11 @@ nextReplica:
 			}
 			if r.verdicts[l.Index] != leader[l.Index] {
 				sig := map[string]any{"restart_or_snapshot_inside_txn_window": inWindow(r, l.Index), "leader_said_conflict": leader[l.Index]}
+				if listsRoot[l.Index] && (r.chunkLater[l.Index] || chunkEntries > 0) {
+					// the transaction listed the root prefix and the log holds chunked
+					// values: chunk storage shares the key space (F22)
+					sig["root_listing_and_chunk_storage"] = true
+				}
 				msg := fmt.Sprintf("entry %d: leader told the client conflict=%v, %s reached conflict=%v (transaction start index %d); leader history: %v",
 					l.Index, leader[l.Index], describe(r), r.verdicts[l.Index], txStart[l.Index], tail(rr.Hist, 30))
 				if inWindow(r, l.Index) {
